@@ -138,6 +138,100 @@ pub fn check_case(env: &Env, ctx: &Ctx, case: &Case) -> (Vec<Violation>, LagStat
     (out, stats, runs, fired)
 }
 
+/// Oracle M on the real binary: live heap (glibc `mallinfo2().uordblks`, sampled by the shim at
+/// every read(0) entry) at the quiescence point after the last unchanged line must not grow with
+/// the input.  Sees what E2 cannot: main.rs reading everything first, or output piling up between
+/// the Painter and the descriptor.
+pub fn memory_check(env: &Env, ctx: &Ctx, args: &[String], n: usize, seed: u64, pager: bool) -> (Option<Violation>, serde_json::Value) {
+    let build = |reps: usize| -> Vec<GLine> {
+        let mut rng = Rng::new(mix(seed, &[tag("C11"), tag("e1mem")]));
+        let gp = gen::GenParams { flavor: gen::Flavor::Git, sections: vec![], max_hunks: 1, pivot: 3, max_run: 8, with_commit_preamble: false, multibyte: false, no_newline_marker: false, similar_pairs: true };
+        let mut lines: Vec<GLine> = Vec::new();
+        let mut tok = 0usize;
+        for h in 0..reps {
+            // one file (fixed name, so the same language is used at both sizes), many hunks
+            let sec = gen::generate_section(&mut rng, &gp, gen::SectionKind::Modified, 0, tok);
+            tok += sec.iter().filter(|l| l.token.is_some()).count();
+            for mut l in sec {
+                if l.kind == gen::LineKind::Meta {
+                    if h > 0 {
+                        continue;
+                    }
+                    // normalise the file name
+                    for pre in ["diff --git ", "--- a/", "+++ b/"] {
+                        if l.text.starts_with(pre) {
+                            l.text = match pre {
+                                "diff --git " => "diff --git a/src/x.rs b/src/x.rs".to_string(),
+                                "--- a/" => "--- a/src/x.rs".to_string(),
+                                _ => "+++ b/src/x.rs".to_string(),
+                            };
+                        }
+                    }
+                }
+                lines.push(l);
+            }
+        }
+        lines
+    };
+    let measure = |reps: usize| -> Option<(i64, usize)> {
+        let lines = build(reps);
+        let data = gen::to_bytes(&lines);
+        let mut spec = RunSpec::default();
+        spec.args = args.to_vec();
+        spec.args.insert(0, if pager { "always".into() } else { "never".into() });
+        spec.args.insert(0, "--paging".into());
+        spec.stdin = data.clone().into();
+        spec.plan = Plan::basic(7);
+        spec.plan.heap = true;
+        spec.plan.rchunks = vec![997]; // many reads, boundaries anywhere
+        spec.pager = Some(PagerSetup { names: vec!["less".into()], mode: "gate".into(), exit_code: 0, less_version: "less 581".into() });
+        let r = run(env, &spec, &ctx.dir.join("run"), false).ok()?;
+        if r.timed_out || r.exit_code != Some(0) {
+            return None;
+        }
+        // heap at the last read(0) entry at which the delivered bytes end in an unchanged line
+        let mut ends: Vec<(usize, bool)> = Vec::new();
+        let mut off = 0;
+        for l in &lines {
+            off += l.text.len() + 1;
+            ends.push((off, l.kind == gen::LineKind::Context));
+        }
+        let mut best: Option<i64> = None;
+        for e in r.delta_events().filter(|e| e.kind == "R") {
+            let ret = e.num("ret").max(0) as usize;
+            let delivered = (e.num("rtot").max(0) as usize).saturating_sub(ret);
+            // last complete line delivered
+            let idx = ends.partition_point(|(o, _)| *o <= delivered);
+            if idx > 0 && ends[idx - 1].1 && delivered > data.len() / 2 {
+                best = Some(e.num("heap"));
+            }
+        }
+        best.map(|h| (h, data.len()))
+    };
+    let (h1, l1) = match measure(n) {
+        Some(x) => x,
+        None => return (None, serde_json::json!({"error": "run failed"})),
+    };
+    let (h4, l4) = match measure(4 * n) {
+        Some(x) => x,
+        None => return (None, serde_json::json!({"error": "run failed"})),
+    };
+    let info = serde_json::json!({"args": args, "pager": pager, "hunks_small": n, "hunks_large": 4 * n, "input_bytes_small": l1, "input_bytes_large": l4, "heap_in_use_small": h1, "heap_in_use_large": h4});
+    let growth = h4 - h1;
+    let input_growth = (l4 - l1) as i64;
+    if growth > input_growth / 2 {
+        return (
+            Some(Violation::new(
+                "M-memory",
+                &format!("e1:{}:M:heap-grows-with-input", if pager { "pager" } else { "stdout" }),
+                format!("[real binary, {} mode] heap in use at a quiescence point after an unchanged line grew by {} bytes when the input grew by {} bytes ({} -> {} hunks; args {:?})", if pager { "pager" } else { "stdout" }, growth, input_growth, n, 4 * n, args),
+            )),
+            info,
+        );
+    }
+    (None, info)
+}
+
 pub fn main_c11(env: &Env, tier: &str, seed: u64, replay: Option<&str>) -> i32 {
     let t0 = Instant::now();
     let ctx0 = Ctx { worker: 0, dir: env.scratch.join("w0"), stop: &std::sync::atomic::AtomicBool::new(false) };
@@ -146,6 +240,21 @@ pub fn main_c11(env: &Env, tier: &str, seed: u64, replay: Option<&str>) -> i32 {
             Some(v) => v,
             None => return 2,
         };
+        if v["oracle"].as_str() == Some("M-memory") {
+            let args: Vec<String> = serde_json::from_value(v["mem_args"].clone()).unwrap_or_default();
+            let (viol, _) = memory_check(env, &ctx0, &args, v["mem_n"].as_u64().unwrap_or(300) as usize, v["seed"].as_u64().unwrap_or(1), v["mem_pager"].as_bool().unwrap_or(false));
+            return match viol {
+                Some(x) => {
+                    println!("VIOLATION property=C11 replay={}", path);
+                    println!("  oracle={} {}", x.oracle, x.message);
+                    1
+                }
+                None => {
+                    println!("replay {}: no violation", path);
+                    0
+                }
+            };
+        }
         let case: Case = serde_json::from_value(v["case"].clone()).unwrap();
         let oracle = v["oracle"].as_str().unwrap_or("");
         let (vs, _, _, _) = check_case(env, &ctx0, &case);
@@ -219,6 +328,30 @@ pub fn main_c11(env: &Env, tier: &str, seed: u64, replay: Option<&str>) -> i32 {
             exit = 1;
         }
     }
+    // oracle M on the real binary
+    let mem_n = if tier == "thorough" { 3000 } else { 300 };
+    let mem_cfgs: Vec<(Vec<String>, bool)> = vec![
+        (vec!["--no-gitconfig".into(), "--width".into(), "120".into()], false),
+        (vec!["--no-gitconfig".into(), "--width".into(), "120".into(), "--side-by-side".into()], true),
+    ];
+    let mem = par_map(&env.scratch, &mem_cfgs, &|ctx, _i, c: &(Vec<String>, bool)| memory_check(env, ctx, &c.0, mem_n, seed, c.1));
+    let mut mem_info = Vec::new();
+    for (i, m) in mem.iter().enumerate() {
+        let (v, info) = m.as_ref().unwrap();
+        mem_info.push(info.clone());
+        runs += 2;
+        if let Some(x) = v {
+            if let Some(k) = known.matches("C11", x) {
+                println!("KNOWN-FINDING: property=C11 {} [{}]", k.what, k.signature);
+                continue;
+            }
+            let path = write_replay("C11", &format!("E1-M-memory-{}", i), &json!({"property": "C11", "engine": "E1-proc", "seed": seed, "oracle": "M-memory", "signature": x.signature, "message": x.message, "mem_args": mem_cfgs[i].0, "mem_pager": mem_cfgs[i].1, "mem_n": mem_n}));
+            println!("VIOLATION property=C11 replay={}", path.display());
+            println!("  oracle={} {}", x.oracle, x.message);
+            reported.insert(x.signature.clone());
+            exit = 1;
+        }
+    }
     counters.insert("max_held_minus".into(), maxm as u64);
     counters.insert("max_held_plus".into(), maxp as u64);
     let mut ev = Evidence::new("C11", tier, seed, "exploration");
@@ -230,6 +363,7 @@ pub fn main_c11(env: &Env, tier: &str, seed: u64, replay: Option<&str>) -> i32 {
     ev.violations = reported.len() as u64;
     ev.samples = cases.iter().take(2).map(|c| json!({"args": c.opts.args, "pager": c.pager, "rchunks": c.rchunks, "wplan": c.wplan})).collect();
     ev.extra.insert("engine".into(), json!("E1-proc"));
+    ev.extra.insert("memory_oracle_real_binary".into(), json!(mem_info));
     ev.wall_s = t0.elapsed().as_secs_f64();
     let part = std::env::var("EVIDENCE_PART").unwrap_or_else(|_| format!("{}/evidence/C11.json", verif_root()));
     if ev.write(&part).is_err() {
